@@ -354,6 +354,23 @@ def run_accept_task(task):
     def fn(ctx: Ctx):
         if not ctx.assume(z3.And(tv >= 0, tv < len(TVOC))):
             return None
+        if task["what"].endswith("_over_constant"):
+            # the argument is a domain CONSTANT whose declared type is the symbolic token (decided here, one path per type)
+            tn = FinStr(tv, TVOC).concretize()
+            dom = lib.parse_domain(text.replace("(:constants k - t1", f"(:constants k - t1 kc - {tn}"))
+            pp = ProblemParser.__new__(ProblemParser)
+            pp.domain = dom
+            pp.logger = logging.getLogger("verif")
+            pp.problem = Problem(dom)
+            pp.problem.objects = pp.parse_objects(["ob", "-", "object"])
+            try:
+                if task["what"] == "fact_over_constant":
+                    pp.parse_grounded_predicate(["pa", "kc"], dom.predicates["pa"])
+                else:
+                    pp.parse_grounded_numeric_fluent(["fa", "kc"])
+                return tn, True
+            except (AssertionError, ValueError, KeyError):
+                return tn, False
         dom = lib.parse_domain(text)
         pp = ProblemParser.__new__(ProblemParser)
         pp.domain = dom
@@ -422,6 +439,7 @@ def accept_tasks():
             for what in ("fact", "fluent"):
                 tasks.append({"kind": "accept", "types": types, "required": req, "what": what})
                 tasks.append({"kind": "accept", "types": types, "required": req, "what": what, "after_grounding": True})
+                tasks.append({"kind": "accept", "types": types, "required": req, "what": what + "_over_constant"})
         # the same object in two positions that require different types: accepted exactly when its type fits both
         for req, req2 in (("t1", "t3"), ("t3", "t1"), ("t4", "t1"), ("t1", "object"), ("object", "t3"), ("t2", "t1")):
             for what in ("fact_repeated_object", "fluent_repeated_object", "trajectory_fluent_repeated_object"):
